@@ -74,6 +74,9 @@ type Disk struct {
 	lastM   int64
 	// OnBoundary is called after every mutating step (including between write chunks).
 	OnBoundary func(kind, path string)
+	// OnRemove is called just before a regular file is removed; read returns the content of
+	// the (then unlinked) file at any later time, including appends through still-open handles.
+	OnRemove func(path string, read func() []byte)
 	// FailWrite, if set, may return an error for a write to path (robustness configurations only).
 	FailWrite func(path string) error
 }
@@ -322,6 +325,10 @@ func Remove(name string) error {
 	n := parent.children[filepath.Base(p)]
 	if n.dir && len(n.children) > 0 {
 		return perr("remove", name, syscall.ENOTEMPTY)
+	}
+	if d.OnRemove != nil && !n.dir {
+		nn := n
+		d.OnRemove(p, func() []byte { return nn.data })
 	}
 	delete(parent.children, filepath.Base(p))
 	d.journal("remove", p, 0)
